@@ -54,7 +54,7 @@ def traces(prop, tier, seed):
         return [hit]
     rng = random.Random(seed * 31 + 7)
     res = {"suite": "changeset", "kind": "mc+rand", "params": params, "cache_hit": False}
-    res["rule"] = "every pair sequence explored by TLC on ChangeSet_MC mapped onto near and far-apart indices and several collect/extend/add segmentations, plus random long pair streams; one logged experiment per case checked by TLC against ChangeSet_L0"
+    res["rule"] = "every pair sequence explored by TLC on ChangeSet_MC mapped onto near and far-apart indices and several collect/extend/add segmentations, plus random long pair streams (iterators with exact and inexact size hints, handles with live and dead generations); one logged experiment per case checked by TLC against ChangeSet_L0"
     st, tl = C.model_check("ChangeSet_MC.tla", mc_cfg([0, 1, 2], params["maxpairs"]), "cs_" + tier, workers=4)
     res["mc"] = st
     res["tlc_scripts"] = len(tl)
@@ -67,7 +67,8 @@ def traces(prop, tier, seed):
         for segs in segmentations(len(ps), rng, 1)[(i % 3):][:2]:
             scripts.append({"tid": tid, "pairs": ps, "how": segs,
                             "store_ids": [x for x in im if rng.random() < 0.6] + ([5] if rng.random() < 0.3 else []),
-                            "take": rng.choice([-1, -1, 0, 1, 2]), "lend": rng.random() < 0.4})
+                            "take": rng.choice([-1, -1, 0, 1, 2]), "lend": rng.random() < 0.4,
+                            "inexact": i % 2 == 1, "dead": [0, 0, 3, 1][i % 4]})
             tid += 1
     for j in range(params["rand"]):
         ids = rng.sample(FAR, rng.randint(1, 5))
@@ -75,7 +76,8 @@ def traces(prop, tier, seed):
         ps = [[rng.choice(ids), k + 1] for k in range(n)]
         sc = {"tid": tid, "pairs": ps, "how": rng.choice(segmentations(n, rng, 3)),
               "store_ids": [x for x in FAR if rng.random() < 0.4],
-              "take": rng.choice([-1, -1, 0, 1, 2, 3]), "lend": rng.random() < 0.4}
+              "take": rng.choice([-1, -1, 0, 1, 2, 3]), "lend": rng.random() < 0.4,
+              "inexact": rng.random() < 0.5, "dead": rng.choice([0, 0, 1, 3, 70])}
         if j % 4 == 0:
             sc["fclear"] = rng.choice([1, 1, 2, 3, 9])     # clear() with a panicking destructor (or none: k too large)
         elif j % 4 == 2:
